@@ -120,16 +120,21 @@ def matchesRec (a b : Record) : Bool := a.rdata == b.rdata && a.entryEq b
 /-- `rrdata_match`: same kind and same RDATA (interface not compared) -/
 def rrdataMatch (a b : Record) : Bool := a.rdata.wire == b.rdata.wire
 
-/-- `suppressed_by_answer` -/
-def suppressedByAnswer (mine other : Record) : Bool := mine.matchesRec other && decide (other.ttl > mine.ttl / 2)
+/-- The reading of "that same record (owner, type, class, RDATA)" (DESIGN.md section 5, C10):
+    owner as DNS compares names (ASCII letter case ignored), type, class without the
+    cache-flush bit, RDATA as on the wire. -/
+def sameRecord (a b : Record) : Bool :=
+  lower a.name == lower b.name && a.ty == b.ty && a.cls == b.cls && a.rdata.wire == b.rdata.wire
+
+/-- `suppressed_by_answer` (after the repair of D18: `get_name().eq_ignore_ascii_case`, type,
+    class, `rrdata_match` - it used to be `matches`, which also compares the cache-flush bit
+    and, for addresses, the interface) -/
+def suppressedByAnswer (mine other : Record) : Bool :=
+  lower mine.name == lower other.name && mine.ty == other.ty && mine.cls == other.cls && mine.rrdataMatch other &&
+    decide (other.ttl > mine.ttl / 2)
 
 /-- `suppressed_by` over the answer section of a query -/
 def suppressedBy (mine : Record) (answers : List Record) : Bool := answers.any mine.suppressedByAnswer
-
-/-- The reading of "that same record (owner, type, class, RDATA)" (DESIGN.md section 5, C10):
-    owner byte for byte, type, class without the cache-flush bit, RDATA as on the wire. -/
-def sameRecord (a b : Record) : Bool :=
-  a.name == b.name && a.ty == b.ty && a.cls == b.cls && a.rdata.wire == b.rdata.wire
 
 end Record
 
